@@ -138,14 +138,21 @@ def error_payload(rep, F):
                 for a in n["arms"]:
                     for q in walk_binds(a["pat"]):
                         lets[q["id"]] = (q["name"], n["e"])
+        # the tag in scope: the first non-self parameter, and whatever is handed to extract_field as the tag
+        plist = [p for p in (b.get("params") or []) if p.get("k") == "bind" and p.get("name") != "self"]
+        tag_ids = {plist[0]["id"]} if plist else set()
+        for n in walk(b["body"]):
+            if is_call(n, "MessageParser::<'a>::extract_field"):
+                a0 = peel((n.get("args") or [None])[0])
+                if isinstance(a0, dict) and a0.get("k") == "local":
+                    tag_ids.add(a0["id"])
         for n in walk(b["body"]):
             if n.get("k") == "struct" and (n.get("path") or "").endswith("InvalidFieldFormatError"):
                 r["instances"] += 1
                 fs = {f["name"]: f["e"] for f in n["fields"]}
                 ft_ = peel(fs.get("field_tag"))
                 val = peel(fs.get("value"))
-                okt = isinstance(ft_, dict) and ft_.get("k") == "local" and \
-                    (ps.get(ft_["id"]) in ("tag", "base_tag") or lets.get(ft_["id"], ("",))[0] in ("full_tag", "tag"))
+                okt = isinstance(ft_, dict) and ft_.get("k") == "local" and ft_["id"] in tag_ids
                 okv = False
                 if isinstance(val, dict) and val.get("k") == "local":
                     nm, init = lets.get(val["id"], (None, None))
@@ -161,7 +168,7 @@ def error_payload(rep, F):
                 fs = {f["name"]: f["e"] for f in n["fields"]}
                 ft_ = peel(fs.get("field_tag"))
                 mt = fs.get("message_type")
-                okt = isinstance(ft_, dict) and ft_.get("k") == "local" and ps.get(ft_["id"]) in ("tag", "base_tag")
+                okt = isinstance(ft_, dict) and ft_.get("k") == "local" and plist and ft_["id"] == plist[0]["id"]
                 okm = any(x.get("k") == "field" and x.get("name") == "message_type" for x in walk(mt))
                 if not okt:
                     rep.add(Finding("EP", b["path"], "missing:field_tag", "MissingRequiredField in %s does not "
